@@ -345,7 +345,7 @@ func init() {
 			c.Coverage["deadlocks_observed_not_counted"] = deadlocks
 			c.SetExhaustive(exh)
 			c.Sample(map[string]any{"driver": "lru-replace", "capacity": 1, "resident": []int{1}, "clients": [][]string{{"get:2"}, {"get:1"}, {"get:2"}}})
-			c.Coverage["rule"] = "(seq) every sequence of the stated depth over a 19-operation alphabet (Get+Release / Get+hold on three keys of charge 1 in two namespaces and one key of charge 2, release oldest/newest handle, Delete with callback, Evict, EvictNS, EvictAll, SetCapacity) on cache.NewCache(cache.NewLRU(1|2)) from one goroutine, oracle after every step: charge retained without any client handle (recomputed from the instrumented values, not from the cache's accounting) <= capacity, constructor once per residency, finalisation exactly once and never with a handle out, delete callback exactly once after finalisation, Evict*/Delete of an unpinned node finalises it at once; (sched) stateless DFS over schedules with deviation bounding on cache.NewCache(cache.NewLRU(n)) (n in {nil,1,2,600}); drivers of 2-3 goroutines issuing Get+Release / Get+hold / Delete(cb) / Evict / EvictNS / EvictAll / SetCapacity / Close(force or not) on 2 colliding keys, one family after pre-loading 511 nodes so the map grows during the window; instrumented values check: constructor never runs while a value of the key is live, handles never carry a finalised value, finalisation exactly once and (unless force-closed) with no outstanding handle, delete callbacks exactly once and never with a handle out, retained charge <= capacity when no handle is out, every constructed value finalised after release+Close; distinct_nontrivial = distinct multisets of client observations; deadlocks met inside the cache are counted (deadlocks_observed_not_counted) but are liveness, i.e. C09's verdict"
+			c.Coverage["rule"] = "(seq) every sequence of the stated depth over a 20-operation alphabet (Get+Release / Get+hold on three keys of charge 1 in two namespaces and one key of charge 2, release oldest/newest handle, Delete with callback, Evict, EvictNS, EvictAll, SetCapacity) on cache.NewCache(cache.NewLRU(1|2)) from one goroutine, oracle after every step: charge retained without any client handle (recomputed from the instrumented values, not from the cache's accounting) <= capacity, constructor once per residency, finalisation exactly once and never with a handle out, delete callback exactly once after finalisation, Evict*/Delete of an unpinned node finalises it at once; (sched) stateless DFS over schedules with deviation bounding on cache.NewCache(cache.NewLRU(n)) (n in {nil,1,2,600}); drivers of 2-3 goroutines issuing Get+Release / Get+hold / Delete(cb) / Evict / EvictNS / EvictAll / SetCapacity / Close(force or not) on 2 colliding keys, one family after pre-loading 511 nodes so the map grows during the window; instrumented values check: constructor never runs while a value of the key is live, handles never carry a finalised value, finalisation exactly once and (unless force-closed) with no outstanding handle, delete callbacks exactly once and never with a handle out, retained charge <= capacity when no handle is out, every constructed value finalised after release+Close; distinct_nontrivial = distinct multisets of client observations; deadlocks met inside the cache are counted (deadlocks_observed_not_counted) but are liveness, i.e. C09's verdict"
 			c.Assume = []string{"bounded schedules", "SC memory"}
 		},
 	})
